@@ -437,3 +437,47 @@ func (store *HStore) VerifLocks(bucketID int) (writeLock, dsLock, flushLock *syn
 	bkt := store.buckets[bucketID]
 	return &bkt.writeLock, &bkt.datas.Mutex, &bkt.datas.flushLock
 }
+
+// ---- GC beside clients (engine concgc): read while every goroutine, the GC goroutine included, is parked ----
+
+// VerifGCObs is the state of the running (or last) GC pass of a bucket and of its destination chunk's gc writer.
+type VerifGCObs struct {
+	Passes    int // len(bkt.GCHistory)
+	Running   bool
+	Begin     int
+	End       int
+	Src       int
+	Dst       int
+	WOpen     bool  // chunks[Dst].gcWriter != nil
+	WPos      int64 // file position of the gc writer's descriptor
+	Buffered  int   // bytes in the gc writer's bufio layer
+	Rewriting bool  // chunks[Dst].rewriting
+	Cancel    bool
+	Err       string
+}
+
+func (store *HStore) VerifGCObs(bucketID int) (o VerifGCObs) {
+	bkt := store.buckets[bucketID]
+	o.Passes = len(bkt.GCHistory)
+	if o.Passes == 0 {
+		return
+	}
+	gc := &bkt.GCHistory[o.Passes-1]
+	o.Running, o.Begin, o.End, o.Src, o.Dst, o.Cancel = gc.Running, gc.Begin, gc.End, gc.Src, gc.Dst, gc.CancelFlag
+	if gc.Err != nil {
+		o.Err = gc.Err.Error()
+	}
+	if o.Dst >= 0 && o.Dst < MAX_NUM_CHUNK {
+		dc := &bkt.datas.chunks[o.Dst]
+		o.Rewriting = dc.rewriting
+		if w := dc.gcWriter; w != nil {
+			o.WOpen = true
+			o.WPos, _ = w.fd.Seek(0, io.SeekCurrent)
+			o.Buffered = w.wbuf.Buffered()
+		}
+	}
+	return
+}
+
+// VerifNextGCChunk is bkt.NextGCChunk.
+func (store *HStore) VerifNextGCChunk(bucketID int) int { return store.buckets[bucketID].NextGCChunk }
